@@ -663,8 +663,14 @@ class CodeGenMapper(Mapper[ImplementedResult, Never, [CodeGenState]]):
 
         self.rec(expr._container, state)
 
-        assert expr in state.results
-        return state.results[expr]
+        # The results of a container are recorded under its own entries; *expr*
+        # may carry tags or axis tags of its own.
+        if expr.tags_of_type(Named):
+            raise ValueError("A Named tag on a result of a container "
+                             f"('{expr.name}') cannot be honoured.")
+        result = state.results[expr._container[expr.name]]
+        state.results[expr] = result
+        return result
 
     def map_loopy_call(self, expr: LoopyCall, state: CodeGenState) -> None:
         self.has_loopy_call = True
